@@ -44,6 +44,10 @@ def run(ctx):
     ctx.run_rule("K5c", r_round.rule_K5_c)
     ctx.run_rule("F8c", r_round.rule_F8_c)
     ctx.run_rule("STc", r_round.rule_ST_c)
+    ctx.run_rule("R1cv", r_round.rule_R1_cvec)
+    ctx.run_rule("R1rv", r_round.rule_R1_rvec, ["pure-full"])
+    ctx.run_rule("XNc", r_round.rule_XN_c)
+    ctx.run_rule("HNc", r_round.rule_HN_c)
     # the assembly flavour (the default build) against the same spec terms
     import r_asmsym
     ctx.run_rule("R1asm1", r_asmsym.rule_R1asm_single)
